@@ -3,6 +3,7 @@ package props
 import (
 	"context"
 	"fmt"
+	"unsafe"
 
 	"github.com/cloudwego/dynamicgo/meta"
 	"github.com/cloudwego/dynamicgo/thrift"
@@ -76,4 +77,12 @@ func hexs(b []byte) string {
 		out = append(out, hexd[c>>4], hexd[c&15])
 	}
 	return string(out)
+}
+
+// bytesToStringAlias views b as a string without copying (so that a trap-page placement stays effective).
+func bytesToStringAlias(b []byte) string {
+	if len(b) == 0 {
+		return ""
+	}
+	return unsafe.String(&b[0], len(b))
 }
